@@ -32,8 +32,8 @@ def run(ctx):
             rng.shuffle(ex)
             opts = {k_: v_ for k_, v_ in opts.items() if k_ in ('dialect', 'tag')}
             ctx.bump('over_100_distinct')
-        form = rng.choice(['list', 'list', 'dict'])
-        if form == 'dict':
+        form = rng.choice(['list', 'list', 'dict', 'bytes-list', 'bytes-dict', 'extract-list'])
+        if form in ('dict', 'bytes-dict'):
             cnt = {}
             for s in ex:
                 cnt[s] = cnt.get(s, 0) + 1
@@ -42,9 +42,9 @@ def run(ctx):
             arg = cnt
         else:
             arg = list(ex)
-            if rng.random() < 0.2:
+            if rng.random() < 0.2 and form == 'list':
                 arg.insert(rng.randint(0, len(arg)), None)
-        case = {'examples': repr(arg), 'opts': opts}
+        case = {'examples': repr(arg), 'opts': opts, 'form': form}
         kw = {}
         if it % 4 == 3:
             # small size settings, so that the examples are sampled and failures are added back in later passes
@@ -57,7 +57,19 @@ def run(ctx):
             ctx.bump('sampling_sizes')
         try:
             with contextlib.redirect_stdout(io.StringIO()):
-                x = Extractor(arg, **dict(opts, **kw))
+                if form.startswith('bytes'):
+                    # encoded examples through the module-level extract(..., encoding=, as_object=True)
+                    import tdda.rexpy.rexpy as rx_
+                    enc = rng.choice(['utf-8', 'utf-16-le', 'utf-32-be'])
+                    case['encoding'] = enc
+                    barg = ({s_.encode(enc, 'surrogatepass'): n_ for s_, n_ in arg.items()} if isinstance(arg, dict)
+                            else [s_.encode(enc, 'surrogatepass') for s_ in arg])
+                    x = rx_.extract(barg, encoding=enc, as_object=True, **dict(opts, **kw))
+                elif form == 'extract-list':
+                    import tdda.rexpy.rexpy as rx_
+                    x = rx_.extract(arg, as_object=True, **dict(opts, **kw))
+                else:
+                    x = Extractor(arg, **dict(opts, **kw))
         except Exception as e:
             ctx.count(repr(case), True)
             ctx.fail(case, 'Extractor raised %s: %s' % (type(e).__name__, str(e)[:200]), finding=None)
